@@ -15,9 +15,9 @@ TRUSTED = [common.TEXT['chan'], common.TEXT['target'],
            'T5 PyThreadState_SetAsyncExc: the exception surfaces in the target thread at a later byte-code boundary, at most once per call, never while blocked in C']
 ASSUMPTIONS = [
     'granularity: statement boundaries, the evaluate/store split of assignments whose value is a call, and "inside the target"; opcode-level points inside one statement are not generated',
-    'L1 (the exception is raised in the thread that runs the target): foreign_raise(self._ident, ...) with _ident recorded by the run function - structural, the injection happens in that function\'s own AST',
+    'L1 (the exception is raised in the thread that runs the target, and it is a WorkerTerminatedError) is the relay lemmas L1-thread (ThreadWorker.terminate), L1-process (the child\'s control thread ProcessWorker._ctrl_fn), L1-remote (the backend\'s RemoteWorker._ctrl_fn_local) and L1-relay (the server-side control loop answers every request with the result of the local method it names, called with the arguments sent): each raises exactly once, in the thread whose ident the run function recorded in self._ident; that the run function records the ident of its own thread is structural (threading.get_ident() is evaluated in it)',
     'L3 (the child reaches exit after the landing; terminate() then returns True) rests on T4/T5 and a cooperative target; wall-clock "within the timeout" is T9',
-    'remote kind: _run_backend is under injection from the point where the backend has reported its identity and got the go-ahead (a parent-initiated terminate cannot land earlier); the server-side relay of the request and the front-end thread of the parent are not under injection',
+    'remote kind: _run_backend is under injection from the point where the backend has reported its identity and got the go-ahead (a parent-initiated terminate cannot land earlier); the relay functions and the front-end thread of the parent are verified as they stand, not under injection (nothing raises asynchronously into them)',
 ]
 MUTANTS = [
     ('pyworkers/thread.py', "        except BaseException as e:\n            logger.exception('Exception occurred while running the main function')\n            self._result = (False, e)",
@@ -28,6 +28,11 @@ MUTANTS = [
      "            result = self.do_work()\n        except Exception as e:", None),
 ]
 MUTANTS = [m for m in MUTANTS if m[3] is not None] + [
+    ('pyworkers/thread.py', "        foreign_raise(self._ident, WorkerTerminatedError)\n        self._release_child()", "        foreign_raise(self._tid, WorkerTerminatedError)\n        self._release_child()", 'thread terminate raises in the wrong thread (native id instead of ident)'),
+    ('pyworkers/process.py', "        self._terminate_req = True\n        foreign_raise(self._ident, WorkerTerminatedError)", "        self._terminate_req = True\n        foreign_raise(self._ident, KeyboardInterrupt)", 'process control thread raises KeyboardInterrupt instead of WorkerTerminatedError'),
+    ('pyworkers/remote.py', "                foreign_raise(self._ident, WorkerTerminatedError)\n                self._release_self()\n            else:", "                self._release_self()\n            else:", 'backend control thread forgets to raise'),
+    ('pyworkers/remote.py', "                    result = self.wait(*args)", "                    result = self.wait()", 'server-side control loop drops the timeout of a wait request'),
+    ('pyworkers/remote.py', "                    result = self.terminate(*args)", "                    result = self.wait(*args)", 'server-side control loop answers a terminate request with wait'),
     ('pyworkers/remote.py', "                logger.exception('Exception occurred while running the main function')\n                result = (False, e)\n            finally:\n                if self._ctrl_thread_loc.is_alive():",
      "                logger.exception('Exception occurred while running the main function')\n            finally:\n                if self._ctrl_thread_loc.is_alive():", 'remote backend forgets the exception that ended the target (also the WorkerTerminatedError)'),
 ]
@@ -53,7 +58,216 @@ def build(ex):
                                                                               region=region, split_store=True))
     return [(childrun.process_run_injected(ex, 'L2p', 'C03'), None),
             (childrun.thread_run_injected(ex, 'L2t', 'C03'), None),
-            (remote, None)]
+            (remote, None)] + relay_lemmas(ex)
+
+
+def relay_lemmas(ex):
+    """L1: how the request reaches the thread that runs the target"""
+    from pyvc import smt
+    from pyvc.smt import Val, ValList, SeqVal
+    from pyvc.contracts import Contract, Loop
+    from pyvc.core import PyRaise, PathEnd
+    from .workers import RW, W
+    repo = ex.repo
+    out = []
+
+    def raise_hook(ex_):
+        ex_.ghost['raised'] = []
+
+        def hook(i2, fi, a, k, n, s):
+            ex_.ghost['raised'] = ex_.ghost['raised'] + [(a[0], a[1])]
+            return NONE
+        return hook
+
+    def one_wte_in_ident(c):
+        ex_ = c.ex
+        r = ex_.ghost['raised']
+        if len(r) != 1:
+            return z3.BoolVal(False)
+        ident, exc = r[0]
+        a0 = ex_.old['heap'][c.env['self'].addr].attrs
+        ok_exc = isinstance(exc, VExcClass) and exc.name.split('.')[-1] == 'WorkerTerminatedError'
+        return z3.And(z3.BoolVal(ok_exc), lower(ident, ex_) == lower(a0['_ident'], ex_))
+
+    def none_raised(c):
+        return z3.BoolVal(len(c.ex.ghost['raised']) == 0)
+
+    # ---- thread kind: the parent raises directly
+    def thread_setup(ex_, env):
+        I = ex_.interp
+        child = VAbs('Proc', Val.v_str(z3.IntVal(smt.str_code('<child thread>'))))
+        ex_.abs_classes['Proc'].set(ex_, child, 'alive', ex_.fresh('alive0', smt.Bool))
+        cur_tid = ex_.ext_models['threading.get_native_id'](ex_, [], {})
+        ctid = I.sym('child_tid')
+        ex_.assume(ctid.t != cur_tid.t)
+        attrs = {'_started': VBool(True), '_dead': I.sym('dead0', 'bool'), '_child': child, '_tid': ctid, '_ident': I.sym('child_ident'), '_result': I.sym('result0')}
+        env['self'] = ex_.alloc(HObj(repo.cls(TW), attrs))
+        t = ex_.fresh('timeout', smt.Real)
+        ex_.assume(t >= 0)
+        env['timeout'] = VReal(t)
+        env['force'] = VBool(False)
+        ex_.ghost['__call_hooks__'] = {'pyworkers.utils.foreign_raise': raise_hook(ex_)}
+
+    def thread_post(c):
+        ex_ = c.ex
+        a0 = ex_.old['heap'][c.env['self'].addr].attrs
+        a1 = ex_.heap[c.env['self'].addr].attrs
+        known_dead = a0['_dead'].e
+        n = len(ex_.ghost['raised'])
+        # is_alive() may find the thread finished: then nothing is raised either
+        found_dead = z3.And(z3.Not(known_dead), a1['_dead'].e)
+        return z3.And(z3.Implies(known_dead, z3.BoolVal(n == 0)), z3.Or(z3.BoolVal(n == 0), one_wte_in_ident(c)),
+                      z3.Implies(z3.BoolVal(n == 0), z3.Or(known_dead, found_dead)))
+    thread_post.__doc__ = ('terminate() on a live thread worker raises exactly once, a WorkerTerminatedError, in the thread whose ident the worker recorded; '
+                           'on a worker known or found dead it raises nothing')
+    out.append((Contract(TW + '.terminate', lid='L1-thread', name='C03.L1-thread ThreadWorker.terminate raises WorkerTerminatedError once, in the worker\'s own thread',
+                         params={'self': ('const', None), 'timeout': ('const', None), 'force': ('const', None)}, self_class=TW, setup=thread_setup, returns='bool',
+                         ensures=[thread_post], raises={}, raises_only=[], options={'recv_closed_check': False}), None))
+
+    # ---- process kind / remote backend: the child's control thread
+    def ctrl_setup(cls, persistent_attrs=False):
+        def su(ex_, env):
+            I = ex_.interp
+            ctrl, ends = common.make_pipe(ex_, 'ctrl', 'Pipe')
+            sync = common.new_event(ex_)
+            attrs = {'_is_child': VBool(True), '_set_names': VBool(False), '_ctrl_thread_sync': sync, '_ctrl_comms': ctrl, '_ident': I.sym('main_ident'),
+                     '_remote_side': VBool(True), '_is_backend': VBool(True), '_terminate_req': VBool(False), '_started': VBool(True), '_stop': VBool(False),
+                     '_socket': common.new_chan(ex_, 'Conn', 'sock'), '_aux_socket_ctrl': NONE}
+            env['self'] = ex_.alloc(HObj(repo.cls(cls), attrs))
+            env['ctrlq'] = ends['child']
+            ac = ex_.abs_classes['Conn']
+            ac.set(ex_, ends['child'], 'ipos', z3.IntVal(0))
+            env['sig'] = VSym(ac.get(ex_, ends['child'], 'inq')[0])
+            ex_.ghost['__call_hooks__'] = {'pyworkers.utils.foreign_raise': raise_hook(ex_)}
+            ex_.abs_classes['Conn'].methods.setdefault('shutdown', lambda ex2, a, k: NONE)
+            # what the parent side writes to the control pipe: None (finish quietly) or the string 'terminate'
+            term = Val.v_str(z3.IntVal(smt.str_code('terminate')))
+            ex_.ghost['chan_elem_inv'] = {'ctrl.child': lambda ex2, x, ipos: z3.Or(x == Val.v_none, x == term)}
+            ex_.ghost['recv_closed_check'] = False
+        return su
+
+    def ctrl_post(c):
+        sig = c.env['sig'].t
+        return z3.And(z3.Implies(sig == Val.v_none, none_raised(c)), z3.Implies(sig != Val.v_none, one_wte_in_ident(c)))
+    ctrl_post.__doc__ = ('a request on the control pipe makes the control thread raise exactly once, a WorkerTerminatedError, in the thread whose ident the run function '
+                         'recorded (the one that runs the target); the message None ends the control thread without raising anything')
+    out.append((Contract(PW + '._ctrl_fn', lid='L1-process', name='C03.L1-process the child\'s control thread raises WorkerTerminatedError once, in the thread that runs the target',
+                         params={'self': ('const', None)}, self_class=PW, setup=ctrl_setup(PW), ensures=[ctrl_post], raises={'EOFError': none_raised}, raises_only=['EOFError'],
+                         options={'recv_closed_check': False}), None))
+    out.append((Contract(RW + '._ctrl_fn_local', lid='L1-remote', name='C03.L1-remote the backend\'s local control thread raises WorkerTerminatedError once, in the thread that runs the target',
+                         params={'self': ('const', None)}, self_class=RW, setup=ctrl_setup(RW), ensures=[ctrl_post], raises={'EOFError': none_raised}, raises_only=['EOFError'],
+                         options={'recv_closed_check': False}), None))
+
+    # ---- remote kind, server side: the control loop relays every request to the local method it names
+    def relay_setup(ex_, env):
+        I = ex_.interp
+        child = VAbs('Proc', Val.v_str(z3.IntVal(smt.str_code('<backend process>'))))
+        ex_.abs_classes['Proc'].set(ex_, child, 'alive', ex_.fresh('alive0', smt.Bool))
+        csock = common.new_chan(ex_, 'Conn', 'ctrlsock')
+        sock = common.new_chan(ex_, 'Conn', 'sock')
+        sync = common.new_event(ex_)
+        attrs = {'_remote_side': VBool(True), '_is_backend': VBool(False), '_set_names': VBool(False), '_startup_sync': sync, '_ctrl_sock': csock, '_socket': sock,
+                 '_child': child, '_started': VBool(True), '_dead': I.sym('dead0', 'bool')}
+        env['self'] = ex_.alloc(HObj(repo.cls(RW), attrs))
+        env['csock'] = csock
+        env['k0'] = VInt(ex_.fresh('k0', smt.Int))
+        ex_.abs_classes['Conn'].methods.setdefault('shutdown', lambda ex2, a, k: NONE)
+        ex_.ghost['relay'] = z3.Empty(SeqVal)        # one entry per relayed request: (name of the local method, the arguments it got, what it returned)
+
+        def local(name):
+            def hook(i2, fi, a, k, n, s):
+                args = a[1:]
+                if len(args) == 1 and isinstance(args[0], VStar):
+                    av = lower(args[0].v, ex_)
+                else:
+                    av = lower(VTuple(list(args)), ex_)
+                res = ex_.fresh(name + '_result', smt.Bool)
+                ex_.ghost['relay'] = z3.Concat(ex_.ghost['relay'], z3.Unit(Val.v_tup(smt.mk_list([Val.v_str(z3.IntVal(smt.str_code(name))), av, Val.v_bool(res)]))))
+                return VBool(res)
+            return hook
+        hooks = dict(common.MSG_HOOKS)
+        for nm in ('terminate', 'wait', 'is_alive'):
+            hooks[RW + '.' + nm] = local(nm)
+        ex_.ghost['__call_hooks__'] = hooks
+
+        def conn_wait(ex2, a, k):
+            items = ex2.interp.iter_concrete(a[0])
+            d = ex2.choose(2, 'ctrl-wait')
+            if d == 0:
+                ex2.note('wait:request')
+                return ex2.alloc(HList([x for x in items if isinstance(x, VAbs)]))
+            ex2.note('wait:child-exited')
+            return ex2.alloc(HList([x for x in items if not isinstance(x, VAbs)]))
+        ex_.ghost['__conn_wait__'] = conn_wait
+
+        def req_inv(ex2, x, ipos):
+            lst = Val.vitems(x)
+            pair = z3.And(Val.is_v_tup(x), ValList.is_vl_cons(lst), Val.is_v_str(ValList.vl_hd(lst)), ValList.is_vl_cons(ValList.vl_tl(lst)),
+                          Val.is_v_tup(ValList.vl_hd(ValList.vl_tl(lst))), ValList.is_vl_nil(ValList.vl_tl(ValList.vl_tl(lst))))
+            cmd = ValList.vl_hd(lst)
+            # the parent side (RemoteWorker.wait / terminate / is_alive) sends only these three commands
+            known = z3.Or(cmd == code('terminate'), cmd == code('wait'), cmd == code('alive'))
+            return z3.Or(x == Val.v_none, z3.And(pair, known))
+        ex_.ghost['chan_elem_inv'] = {'ctrlsock': req_inv}
+        ex_.abs_classes['Proc'].attrs['sentinel'] = lambda I2, o: VInt(z3.Int('sentinel_of_the_backend'))
+        ex_.ghost['recv_closed_check'] = False
+        ex_.ghost['send_raises'] = {}
+
+    def code(s):
+        return Val.v_str(z3.IntVal(smt.str_code(s)))
+
+    def relayed(c, at_exit=False):
+        """request number k0 (arbitrary) has been answered with the result of the local method it names, called with the arguments sent"""
+        ex_ = c.ex
+        cc = ex_.abs_classes['Conn']
+        s = c.env['csock']
+        inq, ipos, out = cc.get(ex_, s, 'inq'), cc.get(ex_, s, 'ipos'), cc.get(ex_, s, 'out')
+        rel = ex_.ghost['relay']
+        k0 = c.env['k0'].e
+        req = inq[k0]
+        cmd = ValList.vl_hd(Val.vitems(req))
+        args = ValList.vl_hd(ValList.vl_tl(Val.vitems(req)))
+        known = z3.Or(cmd == code('terminate'), cmd == code('wait'), cmd == code('alive'))
+        meth = z3.If(cmd == code('alive'), code('is_alive'), cmd)
+        e = rel[k0]
+        le = Val.vitems(e)
+        ent_m, ent_a, ent_r = ValList.vl_hd(le), ValList.vl_hd(ValList.vl_tl(le)), ValList.vl_hd(ValList.vl_tl(ValList.vl_tl(le)))
+        call_ok = z3.And(ent_m == meth, z3.Implies(cmd != code('alive'), ent_a == args), out[k0] == ent_r)
+        n = z3.Length(out)
+        # inside the loop every message read is a request that has been answered; at the exit one more message may have been read: the final None
+        pos = (z3.Or(ipos == n, z3.And(ipos == n + 1, inq[n] == Val.v_none))) if at_exit else (ipos == n)
+        return z3.And(pos, z3.Length(rel) == n, ipos >= 0, ipos <= z3.Length(inq),
+                      z3.Implies(z3.And(k0 >= 0, k0 < n), z3.And(known, call_ok)))
+
+    def relayed_at_exit(c):
+        return relayed(c, at_exit=True)
+    relayed_at_exit.__doc__ = 'on every exit: every request read has been answered as below; the only unanswered message is the final None'
+    relayed.__doc__ = ('every request read so far has been answered, in order, and the answer to request k0 (arbitrary) is what the local method it names returned when '
+                       'called with exactly the arguments that were sent (terminate -> self.terminate(*args), wait -> self.wait(*args), alive -> self.is_alive())')
+
+    def known_cmds(ex_, env):
+        # the parent side sends only these three commands (RemoteWorker.wait / terminate / is_alive): unknown commands get the string 'unknown command'
+        cc = ex_.abs_classes['Conn']
+        inq = cc.get(ex_, env['csock'], 'inq')
+        k0 = env['k0'].e
+        cmd = ValList.vl_hd(Val.vitems(inq[k0]))
+        ex_.assume(z3.Implies(z3.And(k0 >= 0, k0 < z3.Length(inq), inq[k0] != Val.v_none),
+                              z3.Or(cmd == code('terminate'), cmd == code('wait'), cmd == code('alive'))))
+
+    def closed_on_exit(c):
+        ex_ = c.ex
+        return z3.Not(ex_.abs_classes['Conn'].get(ex_, c.env['csock'], 'open'))
+    closed_on_exit.__doc__ = 'the control socket is closed on every exit of the control loop'
+
+    def su(ex_, env):
+        relay_setup(ex_, env)
+    out.append((Contract(RW + '._ctrl_fn_remote', lid='L1-relay', name='C03.L1-relay the server-side control loop answers every request with the result of the local method it names',
+                         params={'self': ('const', None)}, self_class=RW, setup=su, ensures=[], all_exits=[closed_on_exit, relayed_at_exit],
+                         raises={'ConnectionClosedError': None}, raises_only=['ConnectionClosedError'],
+                         loops={0: Loop(invariant=[relayed], modifies=['abs:Conn.ipos', 'abs:Conn.out', 'abs:Conn.open', 'ghost:relay', 'abs:Proc.alive'],
+                                        locals={'ready': 'any', 'msg': 'any', 'cmd': 'any', 'args': 'any', 'result': 'any'})},
+                         options={'recv_closed_check': False}), None))
+    return out
 
 
 def scenario_from(ob):
